@@ -94,3 +94,16 @@ package report
 //@   loop 1
 //@     invariant 0 <= $i && $i <= len(g.Nodes)
 //@     invariant total == sumflatvalue(g, $i)
+
+// ---- C18: callgrind name compression: ids are dense and injective, a back-reference "(n)" is only produced
+// for a name that was defined with that id before ----
+//@ func callgrindName
+//@   requires names != nil
+//@   requires dense: forall k string :: has(names, k) ==> 1 <= names[k] && names[k] <= len(names)
+//@   requires injective: forall k1 string, k2 string :: has(names, k1) && has(names, k2) && names[k1] == names[k2] ==> k1 == k2
+//@   ensures empty: name == "" ==> result == "" && len(names) == old(len(names))
+//@   ensures known: name != "" && old(has(names, name)) ==> len(names) == old(len(names)) && names[name] == old(names[name])
+//@   ensures defined: name != "" && !old(has(names, name)) ==> has(names, name) && names[name] == old(len(names)) + 1 && len(names) == old(len(names)) + 1
+//@   ensures others: forall k string :: k != name ==> (has(names, k) <==> old(has(names, k))) && names[k] == old(names[k])
+//@   ensures dense_kept: forall k string :: has(names, k) ==> 1 <= names[k] && names[k] <= len(names)
+//@   ensures injective_kept: forall k1 string, k2 string :: has(names, k1) && has(names, k2) && names[k1] == names[k2] ==> k1 == k2
